@@ -78,7 +78,7 @@ def main():
         else:
             bp = meta.get('breaks_property')
             if not bp:
-                mm = re.search(r'F-(C\d\d)', sid)
+                mm = re.search(r'F-(C\d\d)', sid) or re.match(r'own-(C\d\d)', sid)
                 bp = mm.group(1) if mm else None
             props = [bp] if bp else []
             props += [p for p in meta.get('also_breaks', [])]
